@@ -56,10 +56,26 @@ fn create_symlink(sri: Integrity, cache: &PathBuf, target: &PathBuf) -> Result<I
             )
         })?;
     if let Err(e) = symlink_file(target, &cpath) {
-        // If symlinking fails because there's *already* a file at the desired
-        // destination, that is ok -- all the cache should care about is that
-        // there is **some** valid file associated with the computed integrity.
-        if !cpath.exists() {
+        let occupant_is_link = std::fs::symlink_metadata(&cpath)
+            .map(|meta| meta.file_type().is_symlink())
+            .unwrap_or(false);
+        if occupant_is_link {
+            // An earlier link lives at this address. The file it points to may
+            // have been changed or removed since, whereas `target` has just
+            // been read and hashed: point the address at it, the way a writer
+            // renames its fresh file over whatever is there.
+            replace_symlink(cache, target, &cpath).with_context(|| {
+                format!(
+                    "Failed to replace cache symlink for {} at {}",
+                    target.display(),
+                    cpath.display()
+                )
+            })?;
+        } else if !cpath.exists() {
+            // If symlinking fails because there's *already* a file at the
+            // desired destination, that is ok -- all the cache should care
+            // about is that there is **some** valid file associated with the
+            // computed integrity.
             return Err(e).with_context(|| {
                 format!(
                     "Failed to create cache symlink for {} at {}",
@@ -70,6 +86,17 @@ fn create_symlink(sri: Integrity, cache: &PathBuf, target: &PathBuf) -> Result<I
         }
     }
     Ok(sri)
+}
+
+/// Atomically points the symlink at `cpath` to `target`: the new link is made
+/// under a temporary name in the cache's `tmp` directory and renamed over it.
+fn replace_symlink(cache: &Path, target: &Path, cpath: &Path) -> std::io::Result<()> {
+    let mut tmp_path = cache.to_path_buf();
+    tmp_path.push("tmp");
+    DirBuilder::new().recursive(true).create(&tmp_path)?;
+    let link = tempfile::Builder::new().make_in(&tmp_path, |path| symlink_file(target, path))?;
+    link.persist(cpath).map_err(|e| e.error)?;
+    Ok(())
 }
 
 /// A `Read`-like type that calculates the integrity of a file as it is read.
